@@ -337,8 +337,8 @@ def run_predicates(ctx: C.Ctx) -> None:
                 tags["nested"] = nested(info["a"], info["b"], info["vertical"])
                 tags["lo_ge_1"] = info["lo"] >= 1
             ctx.fail(C.Failure("grouping differs from the documented %s predicate" % name,
-                               info.get("case") or {k: [S(x) for x in v] if isinstance(v, tuple) else str(v)
-                                                    for k, v in info.items()},
+                               info.get("case") or {k: [S(x) for x in v] if isinstance(v, tuple) else
+                                                    (v if isinstance(v, bool) else S(v)) for k, v in info.items()},
                                spec_val, impl_val, tags))
 
 
@@ -529,6 +529,114 @@ class TieOracle:
             ctx.fail(f)
 
 
+# --------------------------------------------------------------------------- documents: extract_text
+
+def pdf_threshold_doc(rng, la):
+    """One page whose glyphs are placed one by one (Tm) with gaps / pitches on and around the thresholds;
+    font: every width 500, descent -250, so at size 8 every glyph box is 4 x 8 with dyadic corners."""
+    from harness import pdfwriter as W
+    cm, lm, wm = F(la["char_margin"]), F(la["line_margin"]), F(la["word_margin"])
+    font = {"Type": "Font", "Subtype": "Type1", "BaseFont": "VerifSans", "FirstChar": 32, "LastChar": 126,
+            "Widths": [500] * 95, "FontDescriptor": W.Ref(4), "Encoding": "WinAnsiEncoding"}
+    fd = {"Type": "FontDescriptor", "FontName": "VerifSans", "Flags": 32, "FontBBox": [0, -250, 1000, 750],
+          "ItalicAngle": 0, "Ascent": 750, "Descent": -250, "CapHeight": 700, "StemV": 80}
+    ops = [b"BT", b"/F1 8 Tf"]
+    x, y, left = F(72), F(700), F(72)
+    n = rng.randint(2, 24)
+    k = 0
+    for i in range(n):
+        k += 1
+        ch = rng.choice(b"abcdefghijklmnopqrstuvwxyz ")
+        ops.append(b"1 0 0 1 %s %s Tm " % (W.ser_real(x), W.ser_real(y + F(k % 7, 512))) + W.ser_string(bytes([ch])) + b" Tj")
+        r = rng.random()
+        if r < 0.7:
+            gap = rng.choice([F(0), F(1, 2), abs(wm) * 8 + rng.choice(EPS), abs(cm) * 4 + rng.choice(EPS), F(20)])
+            x = x + 4 + gap
+        elif r < 0.93:
+            pitch = rng.choice([F(0), F(1), abs(lm) * 8 + rng.choice(EPS), F(16), F(24) + F(i % 5)])
+            y = y - 8 - pitch
+            x = left + rng.choice([F(0), F(0), abs(lm) * 8 + rng.choice(EPS), F(2)])
+        else:
+            left = left + rng.choice([F(120), F(200)])
+            x, y = left, F(700) - F(rng.randint(0, 60))
+    ops.append(b"ET")
+    return W.simple_doc(b"\n".join(ops), resources={"Font": {"F1": W.Ref(3)}}, extra_objs={3: font, 4: fd})
+
+
+def text_from_dump(full: str, texts: Dict[int, str]) -> str:
+    """What TextConverter writes for the model's tree: every text box followed by a newline, the empty
+    lines kept beside the boxes as they are, then a form feed."""
+    import re
+    page = full.split(" G", 1)[0]
+
+    def line_text(elems: str) -> str:
+        return "".join(" " if t == "s" else "\n" if t == "n" else texts.get(int(t[1:]), "?") for t in elems.split())
+    out = []
+    pos = 2     # after "P["
+    tok = re.compile(r"(B[HV]#-?\d+\([^)]*\)\[((?:L[HV]\([^)]*\)\[[^\]]*\] ?)*)\])|(L[HV]\([^)]*\)\[([^\]]*)\])|(o\d+)")
+    for m in tok.finditer(page, pos):
+        if m.group(1):
+            out.append("".join(line_text(l.group(1)) for l in re.finditer(r"L[HV]\([^)]*\)\[([^\]]*)\]", m.group(2))) + "\n")
+        elif m.group(3):
+            out.append(line_text(m.group(4)))
+    return "".join(out) + "\x0c"
+
+
+def run_documents(ctx: C.Ctx) -> None:
+    import io
+    from pdfminer.converter import PDFPageAggregator
+    from pdfminer.high_level import extract_text
+    from pdfminer.layout import LTChar
+    from pdfminer.pdfinterp import PDFPageInterpreter, PDFResourceManager
+    from pdfminer.pdfpage import PDFPage
+    rng = ctx.rng
+    if ctx.driver is None:
+        return
+    reqs, meta = [], []
+    for i in range(ctx.n(40, 800)):
+        if not ctx.time_left():
+            break
+        la = dict(LA0, char_margin=S(rng.choice([F(2), F(1), F(4)])), line_margin=S(rng.choice([F(1, 2), F(1, 4), F(1)])),
+                  word_margin=S(rng.choice([F(1, 8), F(1, 4), F(1, 2)])),
+                  boxes_flow=rng.choice([None, "1/2", "0", "-1/2"]))
+        data = pdf_threshold_doc(rng, la)
+        try:
+            rm = PDFResourceManager()
+            dev = PDFPageAggregator(rm, laparams=None)
+            PDFPageInterpreter(rm, dev).process_page(next(PDFPage.get_pages(io.BytesIO(data))))
+            raw = dev.get_result()
+            items, texts = [], {}
+            for k, o in enumerate(raw, 1):
+                if isinstance(o, LTChar):
+                    items.append(["c", k] + [S(F(v)) for v in (o.x0, o.y0, o.x1, o.y1)] + [o.get_text()])
+                    texts[k] = o.get_text()
+                else:
+                    items.append(["o", k, "0", "0", "0", "0", "rect"])
+            if not all(F(v).denominator <= 4096 for it in items if it[0] == "c" for v in it[2:6]):
+                ctx.branch("doc:nondyadic")
+                continue
+            got = extract_text(io.BytesIO(data), laparams=L.make_laparams(la, "float"))
+        except Exception as e:  # noqa: BLE001
+            ctx.fail(C.Failure("extract_text raised on a generated document", {"la": la, "pdf_hex": data.hex()[:4000]},
+                               "text", repr(e), {"check": "exception"}))
+            continue
+        ctx.case(("doc", data), len(items) >= 2, branch="doc:extract_text")
+        reqs.append(L.model_line([S(F(v)) for v in raw.bbox], la, items, "page"))
+        meta.append((la, items, texts, got))
+    outs = ctx.driver.ask(reqs) if reqs else []
+    for (la, items, texts, got), out in zip(meta, outs):
+        parts = out.split(" ||| ")
+        if len(parts) != 3:
+            ctx.disagree("doc", {"la": la, "items": items}, got, out[:200])
+            continue
+        if "tie" in parts[2]:
+            ctx.branch("doc:tie")
+            continue
+        exp = text_from_dump(parts[0], texts)
+        if exp != got:
+            ctx.disagree("doc.extract_text", {"la": la, "items": items}, got, exp)
+
+
 # --------------------------------------------------------------------------- translated tables
 
 def run_defaults(ctx: C.Ctx) -> None:
@@ -573,26 +681,60 @@ def run_corpus(ctx: C.Ctx, batch) -> None:
         replay(ctx, doc, batch)
 
 
+def replay_pred(ctx: C.Ctx, name: str, inp, tags) -> None:
+    """Re-evaluate one predicate case (implementation vs documented predicate) from a replay file."""
+    if ctx.driver is None:
+        return
+
+    def spec_of(req: str) -> bool:
+        return ctx.driver.ask([req])[0].split()[1] == "1"
+    if name in ("neighbor_h", "neighbor_v"):
+        a = tuple(F(x) for x in inp["a"])
+        b = tuple(F(x) for x in inp["b"])
+        r = F(inp["ratio"])
+        got, _ = impl_neighbors(a, b, r, name.endswith("_v"))
+        exp = spec_of("pred %s %s" % (name, " ".join(S(x) for x in [r] + list(a) + list(b))))
+    else:
+        la = inp["la"]
+        a = tuple(F(v) for v in inp["items"][0][2:6])
+        b = tuple(F(v) for v in inp["items"][1][2:6])
+        same_line, cls, space, _, _ = impl_pair(a, b, la)
+        if name in ("halign", "valign"):
+            args = " ".join(S(x) for x in [F(la["line_overlap"]), F(la["char_margin"])] + list(a) + list(b))
+            exp = spec_of("pred %s %s" % (name, args))
+            if name == "valign":
+                exp = exp and not spec_of("pred halign " + args)
+            got = same_line and cls == ("V" if name == "valign" else "H")
+        else:
+            vertical = name.endswith("_v")
+            last = a[1] if vertical else a[2]
+            exp = spec_of("pred %s %s" % (name, " ".join(S(x) for x in [F(la["word_margin"]), last] + list(b))))
+            got = space
+    if exp != got:
+        ctx.fail(C.Failure("grouping differs from the documented %s predicate" % name, inp, exp, got, tags))
+
+
 def replay(ctx: C.Ctx, doc, batch=None) -> None:
     own = batch is None
     batch = batch or C8.Batch(ctx)
     inp = doc.get("input", {})
-    if isinstance(inp, dict) and "items" in inp:
+    tags = doc.get("tags", {}) or {}
+    check = str(tags.get("check", ""))
+    if isinstance(inp, dict) and check.startswith("pred:"):
+        ctx.case(("replay", json.dumps(inp, sort_keys=True, default=str)), True, branch="replay:pred")
+        replay_pred(ctx, check[5:], inp, tags)
+    elif isinstance(inp, dict) and "items" in inp:
         ctx.case(("replay", json.dumps(inp, sort_keys=True)), True, branch="replay")
-        if len(inp["items"]) == 2 and doc.get("tags", {}).get("check", "").startswith("pred:"):
-            name = doc["tags"]["check"][5:]
-            a = tuple(F(v) for v in inp["items"][0][2:6])
-            b = tuple(F(v) for v in inp["items"][1][2:6])
-            same_line, cls, space, same_box, _ = impl_pair(a, b, inp["la"])
-            la = inp["la"]
-            if ctx.driver is not None and name in ("halign", "valign"):
-                out = ctx.driver.ask(["pred %s %s" % (name, " ".join(S(x) for x in
-                                                                   [F(la["line_overlap"]), F(la["char_margin"])] + list(a) + list(b)))])[0]
-                spec = out.split()[1] == "1"
-                joined = same_line and cls == ("V" if name == "valign" else "H")
-                if spec != joined:
-                    ctx.fail(C.Failure("grouping differs from the documented %s predicate" % name, inp, spec, joined,
-                                       doc.get("tags", {})))
+        if check == "column-order":
+            page, err = L.run_impl(inp)
+            if err is not None:
+                ctx.fail(C.Failure("layout analysis raised", inp, "no exception", repr(err), {"check": "exception"}))
+            else:
+                from pdfminer.layout import LTChar, LTTextBox
+                got = [[e._vid for l in b for e in l if isinstance(e, LTChar)] for b in page if isinstance(b, LTTextBox)]
+                if doc.get("expected") is not None and got != doc["expected"]:
+                    ctx.fail(C.Failure("boxes of a column layout do not come out in reading order (top to bottom, left column first)",
+                                       inp, doc["expected"], got, tags))
         else:
             f = scale_check(ctx, inp, batch, list(range(-6, 7)))
             if f is not None:
@@ -607,5 +749,6 @@ def run(ctx: C.Ctx) -> None:
     run_defaults(ctx)
     run_predicates(ctx)
     run_columns(ctx, batch)
+    run_documents(ctx)
     run_scale(ctx, batch)
     batch.flush()
